@@ -107,6 +107,8 @@ def file_text(f, me="root", dirs=None):
         return p
     out = "".join('import "%s"%s;\n' % (rel(imp["target"]), "" if imp["alias"] == imp["target"] else " as " + imp["alias"]) for imp in f["imports"])
     for r in f["rules"]:
+        if r.get("action"):
+            out += "@%s\n" % r["action"]
         alts = []
         for alt in r["alts"]:
             alts.append(" ".join(('"%s"' % it["text"]) if it["kind"] == "str" else ".".join(it["parts"]) + it["mult"] for it in alt) or "EMPTY")
@@ -158,7 +160,7 @@ def worker(job):
                 if one in helpers:
                     helpers[name] = {"base": helpers[one]["base"], "mult": "*"}
         case["helpers"] = helpers
-        case["akind"] = {nt.fqn: (helper_kind(nt.fqn) or "none") for nt in g.nonterminals.values()}
+        case["akind"] = {nt.fqn: (job.get("actions", {}).get(nt.fqn) or helper_kind(nt.fqn) or "none") for nt in g.nonterminals.values()}
         case["assign"] = [[] for _ in g.productions]
         texts = sorted({t[1] for t in case["terms"]})
         rng = random.Random(job["seed"])
@@ -256,8 +258,13 @@ def _jobs(tier, seed):
                           "rules": [{"name": ["S"], "alts": [[st("go"), ref(["base", "L"], m1), st("then"), ref(["mid", "L"], m2)], [ref(["mid", "L"], m2), st("only")]]}], "terms": []},
                  "base": {"imports": [], "rules": [{"name": ["L"], "alts": [[st("b1")], [st("b2"), ref(["L"])]]}], "terms": []},
                  "mid": {"imports": [], "rules": [{"name": ["L"], "alts": [[st("m1")], [st("m2")]]}], "terms": []}}
+        if k % 2:
+            # the same local rule name with an explicit built-in list action (@collect) in both files
+            for fn, t in (("base", "b"), ("mid", "m")):
+                files[fn]["rules"] = [{"name": ["L"], "action": "collect", "alts": [[ref(["L"]), ref(["E"])], [ref(["E"])]]},
+                                      {"name": ["E"], "alts": [[st(t + "1")], [st(t + "2")]]}]
         for dl in (0, 1):
-            jobs.append({"name": "template-same-local-name#%d%s" % (k, " dirs%d" % dl if dl else ""), "files": files, "origin": "det", "seed": 77 + k, "shape": "tree3",
+            jobs.append({"name": "template-same-local-name#%d%s" % (k, " dirs%d" % dl if dl else ""), "actions": {"base.L": "collect", "mid.L": "collect"} if k % 2 else {}, "files": files, "origin": "det", "seed": 77 + k, "shape": "tree3",
                          "override": False, "dirs": dl})
     return jobs
 
